@@ -183,6 +183,10 @@ def mpsc():
         [op("clone_tx", o=0, v=0, w=1), op("spawn", v=1), op("drop_tx", o=0, w=0), op("join", v=1),
          op("recv", o=0), op("recv", o=0), op("recv", o=0)],
         [op("send", o=0, v=10, w=1), op("send", o=0, v=11, w=1), op("drop_tx", o=0, w=1)]], chans=[-1]))
+    # the owning iterator blocks like recv and ends only at disconnection
+    P.append(prog(164, "corpus_mpsc", [
+        [op("clone_tx", o=0, v=0, w=1), op("spawn", v=1), op("drop_tx", o=0, w=0), op("recv", o=0, w=1), op("recv", o=0, w=1), op("recv", o=0, w=1), op("join", v=1)],
+        [op("yield"), op("send", o=0, v=10, w=1), op("send", o=0, v=11, w=1), op("drop_tx", o=0, w=1)]], chans=[0]))
     # send after the receiver is gone
     P.append(prog(163, "corpus_mpsc", [
         [op("clone_tx", o=0, v=0, w=1), op("spawn", v=1), op("drop_rx", o=0), op("join", v=1)],
@@ -332,6 +336,13 @@ def poison():
     P.append(prog(182, "corpus_poison", [
         [op("lock", o=0, w=0), op("punlock", w=0), op("spawn", v=1), op("lock", o=0, w=0), op("yield"), op("unlock", w=0), op("join", v=1)],
         [op("lock", o=0, w=0), op("yield"), op("unlock", w=0)]], nmutex=1))
+    # RwLock: a panicking writer poisons (a panicking reader does not); every later read / write / try reports it
+    P.append(prog(183, "corpus_poison", [
+        [op("write", o=0, w=0), op("punlock", w=0), op("read", o=0, w=0), op("unlock", w=0), op("write", o=0, w=0), op("unlock", w=0)]], nrw=1))
+    P.append(prog(184, "corpus_poison", [
+        [op("read", o=0, w=0), op("punlock", w=0), op("read", o=0, w=0), op("unlock", w=0), op("write", o=0, w=0), op("unlock", w=0)]], nrw=1))
+    P.append(prog(185, "corpus_poison", [
+        [op("write", o=0, w=0), op("punlock", w=0), op("try_read", o=0, w=0), op("unlock_if", w=0), op("try_write", o=0, w=1), op("unlock_if", w=1)]], nrw=1))
     return P
 
 
